@@ -56,7 +56,7 @@ def example_task(t):
     bx = common.worker_box()
     bx.use_real_core()
     bx.clean_proj()
-    src_dir = "/repo/examples"
+    src_dir = os.path.join(common.REPO, "examples")
     for fn in sorted(os.listdir(src_dir)):
         if fn.endswith(".capy"):
             shutil.copy(os.path.join(src_dir, fn), os.path.join(bx.proj, fn))
@@ -145,7 +145,7 @@ def main(tier, seed, replay_path=None):
         # ---- part (b) -----------------------------------------------------------------
         results = c20.run_batch(common.sub_seed(seed, "c26-traces") & 0xFFFFFFFF, n_programs, k,
                                 traces_dir=traces_dir, deadline=t0 + (150 if tier == "quick" else 2400))
-        examples = sorted(f for f in os.listdir("/repo/examples") if f.endswith(".capy"))
+        examples = sorted(f for f in os.listdir(os.path.join(common.REPO, "examples")) if f.endswith(".capy"))
         ex = common.parallel_map(example_task, [(e, traces_dir) for e in examples])
         tr_out = os.path.join(work, "trace-summary.json")
         code, stdout = run_toposim(["trace", traces_dir, "--out", tr_out])
